@@ -194,6 +194,32 @@ Section Levels.
     apply goodle_ok. simpl. lia.
   Qed.
 
+  Lemma interpolation_good : forall ts, S (length ts) <= b -> good (interpolation expression ts) ts.
+  Proof.
+    intros ts Lb. unfold interpolation. destruct (starts_no_expression ts); [apply good_err|].
+    assert (G : good (expression ts) ts) by (apply Hex; lia).
+    apply good_bind.
+    - apply good_goodle. exact G.
+    - intros e rest E. destruct G as [_ G]. specialize (G e rest E).
+      destruct rest as [|t r]; [apply good_ok; exact G|].
+      destruct t; try (apply good_ok; exact G). apply good_ok. simpl in *. lia.
+  Qed.
+
+  Lemma interp_loop_good : forall n acc ts, length ts < n -> length ts <= b ->
+    goodle (interp_loop expression n acc ts) ts.
+  Proof.
+    induction n; intros acc ts L Lb; [lia|]. simpl.
+    destruct ts as [|t r]; [apply goodle_err|].
+    destruct t; try apply goodle_err.
+    - (* TInterpMiddle *)
+      assert (G : good (interpolation expression r) r) by (apply interpolation_good; simpl in Lb; lia).
+      apply goodle_bind.
+      + apply good_goodle. eapply good_weaken; [exact G|simpl; lia].
+      + intros ps rest E. destruct G as [_ G]. specialize (G ps rest E).
+        eapply goodle_weaken; [apply IHn; simpl in *; lia|simpl in *; lia].
+    - (* TInterpEnd *) apply goodle_ok. simpl. lia.
+  Qed.
+
   Lemma primary_good : forall ts, length ts <= b -> good (primary expression ts) ts.
   Proof.
     intros ts Lb. unfold primary.
@@ -217,6 +243,12 @@ Section Levels.
       destruct t2; try (apply good_ok; simpl; lia).
       pose proof (skip_le r2).
       eapply goodle_good; [apply struct_loop_good; simpl in *; lia|simpl; lia].
+    - (* TInterpStart *)
+      assert (G : good (interpolation expression r) r) by (apply interpolation_good; simpl in Lb; lia).
+      apply good_bind.
+      + apply good_goodle. eapply good_weaken; [exact G|simpl; lia].
+      + intros ps rest E. destruct G as [_ G]. specialize (G ps rest E).
+        eapply goodle_good; [apply interp_loop_good; simpl in *; lia|simpl in *; lia].
   Qed.
 
   Lemma call_loop_good : forall n e ts, length ts < n -> length ts <= b ->
